@@ -110,7 +110,7 @@ fn op_with<P: Iterator<Item = usize>>(it: &ConIterOfIter<usize, P>, mask: u8, op
                 while k < CH {
                     if k < r.count {
                         let v = vals.next();
-                        if v != Some(r.begin + k) {
+                        if v != Some(r.begin.wrapping_add(k)) {
                             r.bad_seq = true;
                         }
                     }
@@ -137,7 +137,7 @@ fn op_with<P: Iterator<Item = usize>>(it: &ConIterOfIter<usize, P>, mask: u8, op
                 while k < CH {
                     if k < r.count {
                         let v = vals.next();
-                        if v != Some(r.begin + k) {
+                        if v != Some(r.begin.wrapping_add(k)) {
                             r.bad_seq = true;
                         }
                     }
@@ -288,7 +288,7 @@ fn run_n(mask: [u8; 4], nops: [usize; 4], nt: usize, lmax: usize, nmax: usize, h
                 assert!(!r.bad_len, "C03: a chunk must be non-empty and at most n long");
                 assert!(!r.bad_more, "C03: a chunk yields more elements than it announced");
                 if r.some {
-                    assert!(r.begin + r.count <= len, "C01 C03: a position beyond the source was delivered");
+                    assert!(r.begin.checked_add(r.count).map_or(false, |e| e <= len), "C01 C03: a position beyond the source was delivered");
                     if r.kind == P_CHUNK || r.kind == P_BUF {
                         assert!(
                             r.count == r.n || r.begin + r.count == len,
@@ -352,7 +352,7 @@ fn run_n(mask: [u8; 4], nops: [usize; 4], nt: usize, lmax: usize, nmax: usize, h
                         if is_pull(a.kind) && is_pull(b.kind) {
                             if a.some && b.some {
                                 assert!(
-                                    a.begin + a.count <= b.begin,
+                                    a.begin.saturating_add(a.count) <= b.begin,
                                     "C04: a pull that returned before another started received larger positions"
                                 );
                             }
@@ -418,7 +418,7 @@ fn t2_hb_single_single() {
     run2([B_SINGLE, B_SINGLE], [1, 1], 2, 2, true);
 }
 
-// @verif family=TBMC hook=1 ignorefn=TProbeA quick=C05,C04 thorough=C01,C09 timeout=1800 mem=16
+// @verif family=TBMC hook=1 ignorefn=TProbeA quick=C05,C04 thorough=C01,C09 timeout=1800 mem=16 optcov=both
 // @bounds kind=ConIterOfIter<usize,TProbe*> len<=1; thread 0: 1 x next_id_and_value(), thread 1 (last; continues on its own after the trace): 2 x next_id_and_value() (pulls after the end was reported); <=7 guessed events per thread; all interleavings
 #[kani::proof]
 #[kani::unwind(12)]
@@ -426,7 +426,7 @@ fn t2_single_single2() {
     run2([B_SINGLE, B_SINGLE], [1, 2], 1, 2, false);
 }
 
-// @verif family=TBMC hook=1 ignorefn=TProbeA quick=C06 thorough=C01,C09 timeout=1500 mem=16
+// @verif family=TBMC hook=1 ignorefn=TProbeA quick=C06 thorough=C01,C09 timeout=1500 mem=16 optcov=both
 // @bounds kind=ConIterOfIter<usize,TProbe*> len<=2; thread 0: skip_to_end then has_more/try_get_len, thread 1: 2 x next_id_and_value(); <=7 events per thread + solo continuation; all interleavings
 #[kani::proof]
 #[kani::unwind(12)]
@@ -434,7 +434,7 @@ fn t2_skip_single() {
     run2([B_SKIP | B_LEN, B_SINGLE], [2, 2], 2, 2, false);
 }
 
-// @verif family=TBMC hook=1 ignorefn=TProbeA quick=C11 thorough=C05 timeout=1500 mem=16
+// @verif family=TBMC hook=1 ignorefn=TProbeA quick=C11 thorough=C05 timeout=1500 mem=16 optcov=both|wait
 // @bounds kind=ConIterOfIter<usize,TProbe*> len<=2, all size hints; thread 0: 2 x has_more/try_get_len, thread 1: 2 x next_id_and_value(); <=7 events per thread + solo continuation; all interleavings
 #[kani::proof]
 #[kani::unwind(12)]
@@ -482,7 +482,7 @@ fn t2_hb_single_buf() {
     run2([B_SINGLE, B_BUF], [1, 1], 2, 2, true);
 }
 
-// @verif family=TBMC hook=1 ignorefn=TProbeA thorough=C07,C06,C01,C02 timeout=5400 mem=24
+// @verif family=TBMC hook=1 ignorefn=TProbeA thorough=C07,C06,C01,C02 timeout=5400 mem=24 optcov=both
 // @bounds kind=ConIterOfIter<usize,TProbe*> len<=2; FOUR threads: next_id_and_value() | skip_to_end() | next_id_and_value() | next_id_and_value(); <=7 events per thread + solo continuation of the last; happens-before, exclusivity, exactly-once, index fidelity (the window between the two stores of skip_to_end)
 #[kani::proof]
 #[kani::unwind(12)]
@@ -498,7 +498,7 @@ fn t3_single_single_single() {
     run_n([B_SINGLE, B_SINGLE, B_SINGLE, 0], [1, 1, 1, 0], 3, 2, 2, false);
 }
 
-// @verif family=TBMC hook=1 ignorefn=TProbeA thorough=C06,C09 timeout=5400 mem=24
+// @verif family=TBMC hook=1 ignorefn=TProbeA thorough=C06,C09 timeout=5400 mem=24 optcov=both
 // @bounds kind=ConIterOfIter<usize,TProbe*> len<=2; thread 0: next_id_and_value(), thread 1 (last): skip_to_end then has_more; <=7 guessed events per thread + solo; all interleavings
 #[kani::proof]
 #[kani::unwind(12)]
@@ -506,7 +506,7 @@ fn t2_single_skip() {
     run2([B_SINGLE, B_SKIP | B_LEN], [1, 2], 2, 2, false);
 }
 
-// @verif family=TBMC hook=1 ignorefn=TProbeA quick=C12 thorough=C01,C02,C09 timeout=2400 mem=16
+// @verif family=TBMC hook=1 ignorefn=TProbeA quick=C12 thorough=C01,C02,C09 timeout=2400 mem=16 optcov=both
 // @bounds kind=ConIterOfIter<usize,TProbe*> len<=2; thread 0: next_id_and_value(); thread 1 (last, continues on its own after the trace): enumerate_for_each(1, ..) until the end; <=7 guessed events per thread; all interleavings of the pull with the loop
 #[kani::proof]
 #[kani::unwind(12)]
@@ -514,7 +514,7 @@ fn t2_single_foreach1() {
     run2([B_SINGLE, B_FE1], [1, 1], 2, 2, false);
 }
 
-// @verif family=TBMC hook=1 ignorefn=TProbeA thorough=C12,C01,C02,C09 timeout=3600 mem=16
+// @verif family=TBMC hook=1 ignorefn=TProbeA thorough=C12,C01,C02,C09 timeout=3600 mem=16 optcov=both
 // @bounds kind=ConIterOfIter<usize,TProbe*> len<=2; thread 0: next_id_and_value(); thread 1 (last): enumerate_for_each(2, ..) (buffered chunks of 2) until the end; <=7 guessed events per thread; all interleavings
 #[kani::proof]
 #[kani::unwind(12)]
